@@ -1474,3 +1474,51 @@ def rule_quantifier_emitters(ctx, rep, rid: str) -> None:
                         rep.bad(rid, key, f"{m.qual} unrolls the body `{short(loop.iter, 30)}` times without resetting its captures between the copies: /(?:(a)|b){{2}}/ on \"ab\" still reports the \"a\" of the first repetition", f"{m.module.rel}:{loop.lineno}")
     if n < 4:
         raise AnalysisError(f"{rid}: fewer than four body emissions found in the quantifier emitters ({n})")
+
+
+# ---- a scan over all matches leaves lastIndex at 0 on every way out -----------------------------------------
+
+
+def rule_scan_leaves_lastindex_zero(ctx, rep, rid: str) -> None:
+    """String.prototype.match / replace / replaceAll with a global regex run RegExpExec until it fails, and a failed
+    RegExpExec sets lastIndex to 0: whatever the scan found, the regex object ends with lastIndex 0.  A scan that
+    drives the matcher itself (one matcher for the whole subject) has to write that 0 on every exit - the early exit
+    taken when an attempt fails as much as the one at the end of the subject."""
+    rep.rule(rid, "in the regex facade, every return of a method that collects all matches in a loop is either taken on the failure of the facade's own exec (which resets lastIndex) or directly preceded by `self.lastIndex = 0`", floor=1)
+    from .limits import _regex_classes
+
+    facade, js = _regex_classes(ctx)
+    n = 0
+    for m in facade.methods.values():
+        if isinstance(m.node, ast.Lambda):
+            continue
+        loops = [l for l in m.own_nodes() if isinstance(l, ast.While)]
+        collects = any(isinstance(c, ast.Call) and isinstance(c.func, ast.Attribute) and c.func.attr == "append" for l in loops for c in ast.walk(l))
+        attempts = any(isinstance(c, ast.Call) and ((isinstance(c.func, ast.Attribute) and c.func.attr in ("exec", "search", "match", "_run", "test")) or (isinstance(c.func, ast.Name))) for l in loops for c in ast.walk(l))
+        if not (loops and collects and attempts):
+            continue
+        from_exec = {a.targets[0].id for a in m.own_nodes() if isinstance(a, ast.Assign) and len(a.targets) == 1 and isinstance(a.targets[0], ast.Name) and isinstance(a.value, ast.Call) and norm(a.value.func) in ("self.exec", "self.test")}
+        for r in [x for x in m.own_nodes() if isinstance(x, ast.Return)]:
+            n += 1
+            key = f"{m.qual}:return@{'end' if getattr(r, '_parent', None) is m.node else 'loop'}:{short(r, 30)}"
+            par = getattr(r, "_parent", None)
+            ok = False
+            how = None
+            if isinstance(par, ast.If) and r in par.body:
+                t = norm(par.test)
+                if any(t in (f"{v} is None", f"not {v}", f"{v} is NULL") for v in from_exec):
+                    ok, how = True, "failed exec resets lastIndex"
+            if not ok:
+                for field in ("body", "orelse", "finalbody"):
+                    blk = getattr(par, field, None)
+                    if isinstance(blk, list) and r in blk:
+                        i = blk.index(r)
+                        prev = blk[i - 1] if i > 0 else None
+                        if isinstance(prev, ast.Assign) and any(norm(t_) == "self.lastIndex" for t_ in prev.targets) and isinstance(prev.value, ast.Constant) and prev.value.value == 0:
+                            ok, how = True, "lastIndex = 0 written before the return"
+            if ok:
+                rep.ok(rid, key, {"how": how})
+            else:
+                rep.bad(rid, key, f"{m.qual} returns (line {r.lineno}) from its scan over all matches without lastIndex having been set to 0 on that path: after `re.test(s); s.replace(re, x)` with a global regex, lastIndex keeps the value the earlier test left (the scan no longer goes through the facade's exec, whose failure reset it), so the next `re.test(s)` starts in the middle of the subject", f"{m.module.rel}:{r.lineno}")
+    if n == 0:
+        rep.ok(rid, "no-scan-method", {"note": "the facade has no method that collects all matches; the string natives loop over exec themselves"})
